@@ -103,9 +103,10 @@ PROPS = {
         "oracle_props": ["C09", "C07", "C06"],
         "property_files": ["C09.v"],
         "expected_theorems": ["C09_skeleton_unchanged", "C09_operator_count_unchanged", "C09_redecomposition_identical",
-                              "C09_broken_cluster_weight_zero", "C09_zero_probability_cluster_never_flips"],
+                              "C09_broken_cluster_weight_zero", "C09_zero_probability_cluster_never_flips", "C09_flip_keeps_worldline",
+                              "C09_flip_keeps_weight", "C09_flip_keeps_weight_with_broken_clusters", "C09_flip_involutive", "C09_validator_links"],
         "assumptions": [
-            "weight preservation (product of matrix elements) and world-line preservation by the flip are decided by the implementation-side oracle on every case and by the bit-exact correspondence with the model, not yet by a Coq theorem (see DESIGN.md)",
+            "world-line and weight preservation are proved for every labelling accepted by the executable validator (links_ok, sides_ok); that the decomposition algorithm always produces such a labelling is checked by evaluating the validator on every configuration of the correspondence runs (certified-checker style), not proved for all strings",
         ],
         "trusted_base": ["Model/Cluster.v transcription of flip_each_cluster_rng incl. its exploration order (validated by raw-tape replay: cluster numbering decides which RNG word flips which cluster)"],
     },
@@ -114,9 +115,9 @@ PROPS = {
         "oracle_props": ["C06"],
         "property_files": ["C06.v"],
         "expected_theorems": ["C06_metropolis_slot_spec", "C06_heatbath_slot_spec", "C06_diagonal_update_keeps_worldline", "C06_refresh_keeps_worldline",
-                              "C06_padding_keeps_worldline", "C06_swap_keeps_worldline", "C06_itime_fold_states", "C06_itime_fold_one_per_slot"],
+                              "C06_padding_keeps_worldline", "C06_swap_keeps_worldline", "C06_itime_fold_states", "C06_itime_fold_one_per_slot", "C06_cluster_flip_keeps_worldline"],
         "assumptions": [
-            "world-line preservation by the cluster flip, the directed loop and the RVB update is decided by the independent world-line checker after every call plus the bit-exact model correspondence (cluster, loop), not by a Coq theorem",
+            "the cluster flip is proved for validated labellings (validator evaluated on every correspondence case); world-line preservation by the directed loop and the RVB update is decided by the independent world-line checker after every call plus the bit-exact model correspondence (loop), not by a Coq theorem",
             "containers are never longer than the cutoff (set_cutoff lowering is outside a run)",
         ],
         "trusted_base": ["Model/Steps.v, Model/Cluster.v, Model/Loop.v transcriptions validated by whole-call tape replay"],
@@ -153,5 +154,15 @@ PROPS = {
             "capacities, reset-on-return and gen_more=false are re-extracted from the Rust source on every run (tools/extract.py) and compared with the serde occupancy",
         ],
         "trusted_base": ["tools/extract.py (regex-level parser)", "the cfg(qmc_verif) hook in src/util/allocator.rs (commit fa41d26), thread-local, add-only"],
+    },
+    "C20": {
+        "harness_cmd": "c20",
+        "property_files": ["C20.v", "C20dft.v"],
+        "expected_theorems": ["C20_one_entry_per_sample", "C20_lag_zero_is_one", "C20_sample_cadence", "C20_sample_count", "C20_dft_route"],
+        "assumptions": [
+            "rustfft is trusted: results are compared with the rational specification to 2^-30, not bit for bit",
+            "observable columns are non-constant (the property's domain; a constant column divides by zero in the code)",
+        ],
+        "trusted_base": ["Model/Autocorr.v (rational specification); mathcomp 1.15 algebra for the DFT identity (axiom free)"],
     },
 }
